@@ -245,10 +245,11 @@ SdsInputs == {[sk |-> ks, n |-> n] : ks \in {{k} : k \in SdsKinds} \cup {SdsKind
 \* ---- family sym: values that depend on symbols the cases define, in instructions of the suite -----
 \* kinds that record the value (in [before-assert], "cleanupArg" in [cleanup]), the kind that sets the timeout from
 \* it (followed by an OS process that takes time), and kinds that assert ([assert])
-SymOrder == <<"strArg", "listArg", "shellStr", "envStr", "fileStr", "progSym", "timeoutInt", "cleanupArg",
+SymOrder == <<"strArg", "listArg", "listDef", "shellStr", "envStr", "fileStr", "progSym", "timeoutInt", "cleanupArg",
               "exitCode", "numLines", "lineNum", "lineNums", "equalsStr", "matchesRx", "pathExists", "textMatcher",
               "textTransformer", "intMatcher", "lineMatcher">>
-AllSymLog == {"strArg", "listArg", "shellStr", "envStr", "fileStr", "progSym", "cleanupArg"}
+\* ("listDef": a LIST defined by an instruction of the suite from a string symbol of the case, then used)
+AllSymLog == {"strArg", "listArg", "listDef", "shellStr", "envStr", "fileStr", "progSym", "cleanupArg"}
 AllSymAssert == {"exitCode", "numLines", "lineNum", "lineNums", "equalsStr", "matchesRx", "pathExists", "textMatcher",
                  "textTransformer", "intMatcher", "lineMatcher"}
 AllSymKinds == {SymOrder[j] : j \in DOMAIN SymOrder}
